@@ -1663,10 +1663,14 @@ impl<'de, 'e> de::Deserializer<'de> for YamlDeserializer<'de, 'e> {
                 visitor.visit_none()
             }
 
-            // YAML null forms as scalars → None
+            // YAML null forms as scalars → None (a `!!binary` scalar is a payload, never a null:
+            // the base64 text of some byte strings spells `null`)
             Some(Ev::Scalar {
-                value: s, style, ..
-            }) if scalar_is_nullish_for_option(s, style) => {
+                value: s,
+                style,
+                tag,
+                ..
+            }) if tag != &SfTag::Binary && scalar_is_nullish_for_option(s, style) => {
                 let _ = self.ev.next()?; // consume the scalar
                 visitor.visit_none()
             }
